@@ -838,6 +838,14 @@ def run_pred(case, ctx: Ctx):
     gscale = max(1.0, float(grad_w.abs().max()))
     # gradient of a dense solve: amplified once more by sqrt(kappa) (as in C02)
     gtol = max(tol, 1e-8) * max(1.0, kappa ** 0.5)
+    # near-coincident but not identical rows (train/train or train/test): the library's quadratic-expansion r^2 is resolved only to
+    # eps |x / l|^2 ~ 1e-12 and clamped at 0, where its gradient vanishes; the contribution K'(r) (x - x') / (l^2 r) <= 1e-5 / l of such a
+    # pair is below that resolution (DESIGN 1.4, the same exclusion as in kernel.fastpath)
+    rows_ = torch.cat([X.reshape(-1, X.shape[-1]), Xs.reshape(-1, Xs.shape[-1])], 0)
+    dd_ = (rows_.unsqueeze(0) - rows_.unsqueeze(1)).abs().amax(-1)
+    if bool(((dd_ > 0) & (dd_ < 1e-4)).any()):
+        gtol = max(gtol, 1e-5)
+        ctx.label("pred.near_coincident_rows")
     if okm and okv:
         ctx.close("grad_xstar.vs_reference_autograd", grad_g, grad_w, rtol=max(tol, 1e-7), atol=gtol, scale=gscale)
     # ---- central difference of the library's own forward along V (inputs keep requires_grad so that the same, generic,
